@@ -802,17 +802,14 @@ impl<'a, EntryType: Entry> PathSolution<'a, EntryType> {
                 .expect("valid path encoding should always produce a valid view"),
         );
 
-        let start_ia = interfaces
-            .first()
-            .expect("edges are checked to be not empty")
-            .interface
-            .isd_asn;
-
-        let end_ia = interfaces
-            .last()
-            .expect("edges are checked to be not empty")
-            .interface
-            .isd_asn;
+        // Segments from the control plane are not trusted: if none of the hop fields names an
+        // interface, there is no path to hand out.
+        let (Some(first_interface), Some(last_interface)) = (interfaces.first(), interfaces.last())
+        else {
+            return Ok(None);
+        };
+        let start_ia = first_interface.interface.isd_asn;
+        let end_ia = last_interface.interface.isd_asn;
 
         let metadata = PathMetadata {
             expiration: expiration.into(),
